@@ -93,6 +93,8 @@ def family(name: str, tier: str):
         yield ["struct", [["uint", 3, "s"], ["farr", ["struct", [["varr", ["uint", 17, "t"], 2**40 + 1], ["bool"]]], 2**20 + 3], ["uint", 3, "s"]]]
         yield ["union", [["varr", ["struct", [["varr", ["uint", 64, "s"], 2**32 - 1]]], 2**32 - 1], ["farr", ["uint", 33, "s"], 2**59 + 1]]]
         yield ["struct", [["varr", ["varr", ["varr", ["uint", 8, "s"], 2**24 + 1], 2**24 + 1], 2**24 + 1], ["bool"]]]
+    elif name == "medium":
+        yield from T.medium(tier)
     elif name == "colliders":
         # sequences of types, built one after the other in ONE process, whose elements / variants / fields differ as sets but agree
         # in min, max and residues mod 32
@@ -144,7 +146,7 @@ ALIAS_POOL = [
     ["union", [["bool"], ["uint", 8, "s"]]], ["union", [["uint", 8, "s"], ["bool"]]], ["union", [["uint", 8, "s"], ["uint", 56, "s"]]], ["union", [["uint", 8, "s"], ["uint", 24, "s"], ["uint", 56, "s"]]],
     ["delim", ["struct", [["uint", 8, "s"]]], 32], ["delim", ["struct", [["uint", 8, "s"], ["uint", 16, "s"]]], 32], ["delim", ["struct", [["uint", 8, "s"]]], 64], ["delim", ["union", [["bool"], ["uint", 8, "s"]]], 32],
 ]
-FAMILIES_QUICK = [("prims", 1), ("arrays", 4), ("boundary", 4), ("colliders", 4), ("union-constants", 1), ("depth1s", 8), ("depth1u", 8), ("depth2s", 48), ("depth2u", 32), ("aliases", 1)]
+FAMILIES_QUICK = [("prims", 1), ("arrays", 4), ("boundary", 4), ("colliders", 4), ("medium", 8), ("union-constants", 1), ("depth1s", 8), ("depth1u", 8), ("depth2s", 48), ("depth2u", 32), ("aliases", 1)]
 FAMILIES_THOROUGH = FAMILIES_QUICK + [("depth3", 64)]
 
 
@@ -162,10 +164,10 @@ def cases(shard, tier):
         for a, b in itertools.permutations(range(len(ALIAS_POOL)), 2):
             yield {"alias": [a, b]}
         return
-    text_every = {"depth1s": 16, "depth1u": 16, "depth2s": 400, "depth2u": 400, "depth3": 200, "arrays": 0, "prims": 0, "boundary": 0, "union-constants": 0, "colliders": 0}[shard["family"]]
+    text_every = {"depth1s": 16, "depth1u": 16, "depth2s": 400, "depth2u": 400, "depth3": 200, "arrays": 0, "prims": 0, "boundary": 0, "union-constants": 0, "colliders": 0, "medium": 7}[shard["family"]]
     for i, d in enumerate(family(shard["family"], tier)):
         if i % shard["parts"] == shard["part"]:
-            yield {"desc": d, "text": bool(text_every and (i // shard["parts"]) % text_every == 0)}
+            yield {"desc": d, "text": bool(text_every and (i // shard["parts"]) % text_every == 0) and not T.has_array_of_arrays(d)}
 
 
 DIVS = list(range(1, 17)) + [24, 32, 64]
